@@ -192,7 +192,7 @@ Proof.
   induction v as [|b|z|r|s|l IH|m IH] using jvalue_nested_ind; intros t H C.
   - inversion H; subst. apply good_plain. repeat constructor; unfold is_ws; lia.
   - destruct b; inversion H; subst; apply good_plain; repeat constructor; unfold is_ws; lia.
-  - simpl in H. destruct (int_float_repr z) as [r|] eqn:E; [|discriminate].
+  - simpl in H. destruct (int_float_repr z) as [r|] eqn:E; [|unfold int_too_big in H; destruct (float_overflows z); discriminate].
     apply good_plain. apply (convert2es6_chars plain) with (r := r); auto;
       try (unfold plain, is_ws, c_0, c_dot, c_minus; lia).
     eapply Forall_impl; [|eapply int_float_repr_rc; exact E]. apply repr_char_plain.
